@@ -39,6 +39,84 @@ MUTATORS = {"append", "extend", "insert", "remove", "pop", "clear", "sort", "rev
 STRUCTURAL_KEYS = {"paramset_type", "n_parameters", "is_scalar"}
 
 
+# R4 and R5 know ONE spelling of the ordering clauses (sorted(set(...)) assignments, loops over config.*, functools.reduce);
+# R8 (channel summary), R9 (rebuild), R13 (Workspace.data) and R14 (builder pipeline) decide the same clauses from what the code computes.
+DEFER = [(["C12.R4"], ["C12.R8", "C12.R14"]), (["C12.R5"], ["C12.R9", "C12.R13"])]
+
+
+def _data_history(ctx, rid, repo):
+    from ..alg import RaisedInFragment
+    from ..objmodel import World, dict_base
+    from .c16 import _deep, _isinstance_of_modelled_class
+    at = Poly.atom
+    wsc = repo.cls(WS, "Workspace")
+    wd = wsc.methods["data"]
+    try:
+        mix = repo.cls(MIX, "_ChannelSummaryMixin")
+        w = World({"__strict__": True, "deepcopy": lambda a, k: _deep(a[0]), "__isinstance__": _isinstance_of_modelled_class}, module_env={"log": Obj("log"), "schema": Obj("schema"), "exceptions": Obj("exceptions"), "copy": Obj("copy"), "jsonpatch": Obj("jsonpatch")})
+        w.add_foreign_base("dict", dict_base())
+        w.add_class(mix).add_class(wsc)
+        for q, f_ in repo.module(WS).funcs.items():
+            if "." not in q and q != "__dir__":
+                w.add_func(f_)
+        chan = lambda n, k: {"name": n, "samples": [{"name": "bkg", "data": [at(f"{n}_b{i}") for i in range(k)], "modifiers": []}]}
+        spec = {"channels": [chan("zz", 2), chan("aa", 1), chan("mm", 2)],
+                "observations": [{"name": "mm", "data": [at("m0"), at("m1")]}, {"name": "zz", "data": [at("z0"), at("z1")]}, {"name": "aa", "data": [at("a0")]}],
+                "measurements": [{"name": "meas", "config": {"poi": "mu", "parameters": []}}], "version": "1.0.0"}
+        ws = w.new(wsc, [spec], {"validate": False})
+        aux = [at("aux0"), at("aux1")]
+        model = Obj("model", {"config": Obj("config", {"channels": ["aa", "mm", "zz"], "auxdata": aux})})
+        main = ["a0", "m0", "m1", "z0", "z1"]
+        plan = [("first call (auxiliary data included by default)", {}, main + ["aux0", "aux1"]), ("second call, same arguments", {}, main + ["aux0", "aux1"]), ("third call, include_auxdata=False", {"include_auxdata": False}, main)]
+        bad = None
+        for lab, kw, want in plan:
+            out = w.call_method(ws, "data", [model], dict(kw))
+            got = [str(to_poly(x)) for x in out] if isinstance(out, (list, tuple)) else repr(out)
+            stored = {k: [str(to_poly(x)) for x in v] for k, v in (ws.attrs.get("observations") or {}).items()}
+            if got != want:
+                bad = f"{lab}: the data vector is {got}, the model's channel order (aa, mm, zz) and its auxiliary data give {want}"
+                break
+            if stored != {"mm": ["m0", "m1"], "zz": ["z0", "z1"], "aa": ["a0"]} or [str(x) for x in aux] != ["aux0", "aux1"]:
+                bad = f"{lab}: the call changed what the workspace / the model store (observations now {stored}, auxiliary data {[str(x) for x in aux]}): the accumulator is not a fresh list"
+                break
+        if bad:
+            ctx.violated(rid, wd, "Workspace.data history", f"Workspace.data does not hand out the observations in the model's order (or is not repeatable): {bad}", expected="observations of config.channels in that order (+ config.auxdata iff requested), stores untouched", found=bad)
+        else:
+            ctx.holds(rid, f"{WS}::Workspace.data [3 calls, observations listed mm, zz, aa; model channels aa, mm, zz]", "model order, auxiliary data iff requested, stores untouched")
+    except RaisedInFragment as e:
+        ctx.violated(rid, wd, "Workspace.data history", f"Workspace.data raises {e.exc_name} for a model whose channels all have observations")
+    except (Undecided, KeyError, TypeError, ValueError, IndexError, AttributeError) as e:
+        ctx.unrecognised(rid, wd, "Workspace.data history", f"not interpretable: {type(e).__name__}: {e}")
+
+
+def _viewer_from_sizes_interpreted(ctx, rid, f):
+    """_tensorviewer_from_sizes([2, 3, 1]) must hand the viewer the index ranges [0,1], [2,3,4], [5] in that order"""
+    rec = []
+
+    def viewer(a, k):
+        rec.append((a, k))
+        return Obj("viewer")
+
+    ext = {"_TensorViewer": viewer, "slice": lambda a, k: Obj("slice", {"start": to_poly(a[0]) if len(a) > 1 else Poly(), "stop": to_poly(a[1] if len(a) > 1 else a[0])})}
+    env = {"pyhf": Obj("pyhf", {"default_backend": Obj("tensorlib")}), "default_backend": Obj("tensorlib")}
+    try:
+        names = ["m", "n", "o"]
+        Interp(env, {}, {}, externals=ext).call_function(f.node, [[Poly.const(2), Poly.const(3), Poly.const(1)], names, None], {})
+        got = None
+        if len(rec) == 1:
+            a, k = rec[0]
+            idx = a[0] if a else k.get("indices")
+            got = [[int(to_poly(x).const_value()) for x in part] for part in idx]
+            nm = k.get("names", a[2] if len(a) > 2 else None)
+            bs = k.get("batch_size", a[1] if len(a) > 1 else None)
+        if got == [[0, 1], [2, 3, 4], [5]] and nm is names and bs is None:
+            ctx.holds(rid, f"{f.relpath}::{f.qualname} [sizes 2, 3, 1]", "index ranges [0,1] [2,3,4] [5], names and batch size handed on (interpreted)")
+        else:
+            ctx.violated(rid, f, "_tensorviewer_from_sizes", "the viewer built from sizes [2, 3, 1] does not get the consecutive index ranges [0,1], [2,3,4], [5] (with the names and batch size it was given)", expected="[[0, 1], [2, 3, 4], [5]]", found=str(got))
+    except (Undecided, KeyError, TypeError, ValueError, IndexError, AttributeError) as e:
+        ctx.unrecognised(rid, f, "_tensorviewer_from_sizes", f"no offset loop found and not interpretable: {type(e).__name__}: {e}")
+
+
 def run(ctx):
     repo = ctx.repo
     r1 = ctx.rule("C12.R1", "RUNOFF: _create_and_register_paramsets, the channel-slice loop of the mixin and _tensorviewer_from_sizes advance their offset exactly once per iteration by the width of the slice just taken; parameter names are appended to par_order in the same iteration", "RUNOFF", floor=4)
@@ -60,6 +138,11 @@ def run(ctx):
     r12 = ctx.rule("C12.R12", "MODEL-HISTORY (interpreted, engine shared with C16.R7 / C20.R8): Workspace.model() called five times on ONE real Workspace object (default POI, a POI override, default, POI-less, default) with Model as a recorder: each call hands Model the workspace's channels, the measurement's parameter settings and the POI THAT call asks for, and leaves the workspace's stored document unchanged", "HISTORY", floor=1)
     from .c16 import model_history
     model_history(ctx, r12, repo)
+    r13 = ctx.rule("C12.R13", "DATA-HISTORY (interpreted): Workspace.data on a real Workspace object whose observations are listed in another order than the model's channels, called three times (with auxiliary data, again, without): each result is the observations of the model's channels in the MODEL's order followed by the model's auxiliary data iff requested; the stored observations and the model's auxiliary data are unchanged afterwards (a fresh accumulator per call)", "HISTORY", floor=1)
+    _data_history(ctx, r13, repo)
+    r14 = ctx.rule("C12.R14", "BUILD (interpreted, engine shared with C01.R11 / C03.R9 / C10.R6): _nominal_and_modifiers_from_spec with the real builders on a specification whose channels, samples and modifiers are listed OUT of order: the tensors are laid out in the configuration's sorted order", "SHARED", floor=1)
+    from .c01 import _build_end_to_end, registry
+    _build_end_to_end(ctx, r14, registry(repo))
 
     # ------------------------------------------------------------ R1
     sites = [(PDF, "_ModelConfig._create_and_register_paramsets"), (MIX, "_ChannelSummaryMixin.__init__"), (TC, "_tensorviewer_from_sizes")]
@@ -68,7 +151,15 @@ def run(ctx):
         ctx.touch(f)
         loops = runoff.find_offset_loops(f.node)
         if not loops:
-            ctx.unrecognised(r1, f, q, "no offset loop found")
+            # the bookkeeping is written without an explicit running offset (itertools.accumulate, a helper ...): what it computes decides
+            if q == "_tensorviewer_from_sizes":
+                _viewer_from_sizes_interpreted(ctx, r1, f)
+            elif q == "_ChannelSummaryMixin.__init__" and ctx.rules["C12.R8"].instances and all(i[1] == "HOLDS" for i in ctx.rules["C12.R8"].instances):
+                ctx.holds(r1, f"{rel}::{q}", "no explicit offset loop; the channel slices tile [0, total) in sorted channel order (interpreted, C12.R8)")
+            elif q == "_ModelConfig._create_and_register_paramsets":
+                pass  # interpreted just below
+            else:
+                ctx.unrecognised(r1, f, q, "no offset loop found")
             continue
         for loop, var in loops:
             res = runoff.analyse(loop, var)
